@@ -106,6 +106,13 @@ func (e *Enc) newFrame(fn *ssa.Function, depth int, top bool) *Frame {
 				f.siteKeys[ins] = fmt.Sprintf("%s#%d", k, ord[k])
 				ord[k]++
 			}
+			if st, ok := ins.(*ssa.Store); ok {
+				switch st.Addr.(type) {
+				case *ssa.IndexAddr, *ssa.FieldAddr:
+					f.siteKeys[ins] = fmt.Sprintf("store#%d", ord["$store"])
+					ord["$store"]++
+				}
+			}
 		}
 	}
 	return f
@@ -221,12 +228,7 @@ func (f *Frame) safety(kind, detail, cond string, pos token.Pos) {
 
 func (f *Frame) exprText(v ssa.Value) string {
 	// best-effort source text for naming obligations
-	if p := v.Pos(); p.IsValid() {
-		if s := f.e.P.sourceAt(p, v); s != "" {
-			return s
-		}
-	}
-	return v.Name()
+	return describe(v, 0)
 }
 
 // run encodes the body. heap is the entry heap, reach the entry condition.
@@ -426,6 +428,11 @@ func (f *Frame) enterLoop(li *LoopInfo, preds []*ssa.BasicBlock, conds []string)
 		e.assumeWF("", n, phi.Type())
 		f.vals[phi] = Val{T: n}
 		li.phiConst[phi] = n
+		f.assumeAllocated(n, phi.Type(), 0)
+		if lb, ok := monotonePhiLowerBound(phi); ok {
+			// counting phi: starts at a constant and only ever grows
+			e.assert(fmt.Sprintf("(>= %s %s)", n, lb))
+		}
 	}
 	// iterator facts: 0 <= iterpos
 	for _, inv := range li.spec.Invariants {
@@ -813,4 +820,50 @@ func (f *Frame) lookupName(name string, li *LoopInfo, from *ssa.BasicBlock) (spe
 		return specVal{v: f.get(best), t: best.Type()}, true
 	}
 	return specVal{}, false
+}
+
+// monotonePhiLowerBound recognises phi(c, phi + k, ...) with constant c and
+// k >= 0 on every back edge (range indices, counters): phi >= c is inductive.
+func monotonePhiLowerBound(phi *ssa.Phi) (string, bool) {
+	if !isIntType(phi.Type()) {
+		return "", false
+	}
+	b := phi.Block()
+	var lb *ssa.Const
+	for i, p := range b.Preds {
+		ev := phi.Edges[i]
+		if isBackEdge(p, b) {
+			bo, ok := ev.(*ssa.BinOp)
+			if ev == ssa.Value(phi) {
+				continue
+			}
+			if !ok || bo.Op != token.ADD || bo.X != ssa.Value(phi) {
+				return "", false
+			}
+			k, ok := bo.Y.(*ssa.Const)
+			if !ok || k.Value == nil || k.Int64() < 0 {
+				return "", false
+			}
+			continue
+		}
+		c, ok := ev.(*ssa.Const)
+		if !ok || c.Value == nil {
+			return "", false
+		}
+		if lb != nil && lb.Int64() != c.Int64() {
+			if c.Int64() < lb.Int64() {
+				lb = c
+			}
+			continue
+		}
+		lb = c
+	}
+	if lb == nil {
+		return "", false
+	}
+	v := lb.Int64()
+	if v < 0 {
+		return fmt.Sprintf("(- %d)", -v), true
+	}
+	return fmt.Sprint(v), true
 }
